@@ -570,7 +570,8 @@ def r4_mmr(ctx, F):
         paths = None
         ctx.violation("UNANALYSABLE|mmr::get", ploc("get"), str(e)[:300])
     if paths is not None:
-        grid = [(n, pos) for n in range(1, 130) for pos in range(n)]
+        top = 130 if ctx.tier != "thorough" else 700
+        grid = [(n, pos) for n in range(1, top) for pos in range(n)]
         for n in (2 ** 31, 2 ** 32 - 1, 2 ** 31 + 1, 0xAAAAAAAA, 0x55555555, 0x80000001, 0xFFFF0000, 0x00010001):
             edges = {0, n - 1, n // 2}
             acc = 0
@@ -581,7 +582,7 @@ def r4_mmr(ctx, F):
         bad = None
         # positions past the end: the native structure reports InvalidPosition, so the procedure must not complete - it fails in
         # its own arithmetic / assertions, or asks mtree_get for an index that does not exist at that depth (the VM rejects it)
-        past = [(n, pos) for n in range(1, 40) for pos in range(n, 4 * n + 9)] + [(2 ** 31, 2 ** 31), (2 ** 31, 2 ** 32 - 1), (0xFFFFFFFF, 0xFFFFFFFF), (3, 2 ** 32 - 2), (5, 2 ** 31 + 4)]
+        past = [(n, pos) for n in range(1, 40 if ctx.tier != "thorough" else 200) for pos in range(n, 4 * n + 9)] + [(2 ** 31, 2 ** 31), (2 ** 31, 2 ** 32 - 1), (0xFFFFFFFF, 0xFFFFFFFF), (3, 2 ** 32 - 2), (5, 2 ** 31 + 4)]
         for n, pos in past:
             env = {"pos": pos, "ptr": 1000}
             completes = False
@@ -691,7 +692,7 @@ def r4_mmr(ctx, F):
         st, ev, gd = pres[0]
         loads = [e for e in ev if e[0] == "mem_load"]
         stores = [e for e in ev if e[0] == "mem_store"]
-        for n in list(range(0, 300)) + [2 ** 31 - 1, 2 ** 31, 2 ** 32 - 2, 0xFFFF, 0x7FFFFFFF, 0xAAAAAAAA, 0x55555555]:
+        for n in list(range(0, 300 if ctx.tier != "thorough" else 5000)) + [2 ** 31 - 1, 2 ** 31, 2 ** 32 - 2, 0xFFFF, 0x7FFFFFFF, 0xAAAAAAAA, 0x55555555]:
             for ptr in (0, 77):
                 env = {"ptr": ptr}
                 for e in loads:
